@@ -218,3 +218,5 @@ def run(rep, repo, tier):
     rep.floor('R-SLINE:bounds', 25)
     rep.floor('R-SLINE:invariant', 60)
     rep.floor('R-SLINE:post', 20)
+    from c15_content import run_ext
+    run_ext(rep, repo, tier)
